@@ -15,7 +15,14 @@ pub(crate) fn find_tld_or_enum_value_by_name(
     tlds: &BTreeMap<String, ToplevelDefinition>,
 ) -> Option<ASN1Value> {
     if let Some(ToplevelDefinition::Value(v)) = tlds.get(name) {
-        return Some(v.value.clone());
+        // the value assignment may itself be a reference to another one (`a INTEGER ::= b`)
+        return Some(
+            ASN1Value::resolve_value_reference(tlds, name)
+                .ok()
+                .flatten()
+                .unwrap_or(&v.value)
+                .clone(),
+        );
     } else {
         for (_, tld) in tlds.iter() {
             if let Some(value) = tld.get_distinguished_or_enum_value(Some(type_name), name) {
